@@ -97,6 +97,14 @@ Definition condense_log (L : labware) (n : nat) (label : option string) : labwar
   let state := snd (nth (len - 1) h (None, [])) in
   set_hist L (firstn (len - n) h ++ [(label2, state)]).
 
+(** [Labware.report]: the labware name, then per history entry the label (when it is a non-empty string) and the
+    volumes rounded to one decimal ([numpy.round(state, decimals=1)], in tenths) *)
+Definition report_entries (L : labware) : list (option string * list Z) :=
+  map (fun h => (match fst h with
+                 | Some l => if String.eqb l "" then None else Some l
+                 | None => None
+                 end, map round1c (snd h))) (lw_hist L).
+
 (* ------------------------------------------------------------------ add / remove *)
 
 (** argument validation shared by add and remove: NaN or negative volumes are refused before any
